@@ -102,6 +102,33 @@ def func_design(name, rng):
   body = '\n'.join('    ' + l for l in L)
   return sc.STRUCT_SRC + f'\nclass {name}( Component ):\n  def construct( s ):\n{body}\n'
 
+def fanout_design(name, rng):
+  """one source signal driving several net sinks of different kinds (whole signals in the same component and in children,
+  slices, struct fields); each sink is read by a block of its own; the source is written by a block"""
+  w = rng.choice([4, 8])
+  L = [f's.in_ = InPort( {w} )', f's.a = Wire( {w} )', '@update', 'def up_src():', '  s.a @= s.in_ + 1']
+  k = 0
+  kinds = rng.sample(['whole', 'whole2', 'slice', 'field', 'child', 'outport'], rng.randrange(2, 5))
+  if not ({'slice', 'field'} & set(kinds)): kinds.append('slice')
+  if not ({'whole', 'whole2', 'outport'} & set(kinds)): kinds.append('whole')
+  rng.shuffle(kinds)
+  for kd in kinds:
+    k += 1
+    if kd in ('whole', 'whole2'):
+      L += [f's.b{k} = Wire( {w} )', f'connect( s.a, s.b{k} )' if rng.random() < 0.5 else f'connect( s.b{k}, s.a )', f's.o{k} = OutPort( {w} )', '@update', f'def up_rd{k}():', f'  s.o{k} @= s.b{k} ^ 1']
+    elif kd == 'outport':
+      L += [f's.p{k} = OutPort( {w} )', f'connect( s.a, s.p{k} )', f's.o{k} = OutPort( {w} )', '@update', f'def up_rd{k}():', f'  s.o{k} @= s.p{k} + 2']
+    elif kd == 'slice':
+      lo = rng.randrange(0, 4)
+      L += [f's.c{k} = Wire( {w + 6} )', f'connect( s.a, s.c{k}[{lo}:{lo + w}] )', f'connect( s.c{k}[0:{lo}], 0 )' if lo else '', f'connect( s.c{k}[{lo + w}:{w + 6}], 0 )',
+            f's.o{k} = OutPort( {w} )', '@update', f'def up_rd{k}():', f'  s.o{k} @= s.c{k}[{lo}:{lo + w}]']
+    elif kd == 'field':
+      L += [f's.s{k} = Wire( Pt )', f'connect( s.a{"[0:4]" if w == 8 else ""}, s.s{k}.b )', f'connect( s.s{k}.a, 0 )', f's.o{k} = OutPort( 4 )', '@update', f'def up_rd{k}():', f'  s.o{k} @= s.s{k}.b']
+    else:
+      L += [f's.ch{k} = Inc( {w} )', f'connect( s.a, s.ch{k}.in_ )', f's.o{k} = OutPort( {w} )', '@update', f'def up_rd{k}():', f'  s.o{k} @= s.ch{k}.out']
+  body = '\n'.join('    ' + l for l in L if l)
+  return sc.STRUCT_SRC + f'\nclass {name}( Component ):\n  def construct( s ):\n{body}\n'
+
 FMEM = """
 class FMem( Component ):
   def construct( s ):
@@ -316,6 +343,11 @@ def dag_add(ctx, name, src, fp, expl=None):
   term, missing = sc.dag_case(fp, expl=expl)
   ctx._dag_cases.append(term)
   ctx._dag_meta.append((name, src, [(fp.comb[a].__name__, fp.comb[b].__name__) for a, b in missing], [b.__name__ for b in fp.comb]))
+  if fp.alias_rep and any(k != v for k, v in fp.alias_rep.items()):
+    # the same graph judged with signals that share storage merged (dependencies that run through aliasing)
+    term, missing = sc.dag_case(fp, expl=expl, alias=True)
+    ctx._dag_cases.append(term)
+    ctx._dag_meta.append((name + ' [signals sharing storage merged]', src, [(fp.comb[a].__name__, fp.comb[b].__name__) for a, b in missing], [b.__name__ for b in fp.comb]))
 
 def expect_reject(ctx, name, src, cls, what):
   for sch in ['simple', 'dynamic', 'unroll', 'heuristic', 'mamba']:
@@ -358,7 +390,7 @@ def run(ctx):
       ctx.violation(f'C02:design-crash:{W}:{R}:{wk}:{rk}:{ex}:{type(e).__name__}', f'shaped design ({W} written by {wk}, {R} read by {rk}, {ex}) failed: {type(e).__name__}: {str(e)[:200]}',
                     {'design_source': src, 'traceback': traceback.format_exc()[-1500:]})
   # random larger designs
-  for j in range(28 if quick else 200):
+  for j in range(22 if quick else 200):
     g = sc.Gen(random.Random(rng.randrange(1 << 30)), f'R{j}', size=rng.choice(['medium', 'large'])).build()
     cls, _ = sc.load_source(ctx, g.source(), g.name)
     check_orders(ctx, g.name, g.source(), cls, variants, coq_cases, coq_meta)
@@ -380,7 +412,15 @@ def run(ctx):
       ctx.hist['family:blocking-method'] = ctx.hist.get('family:blocking-method', 0) + 1
     except Exception as e:
       ctx.violation(f'C02:fl-design-crash:{type(e).__name__}', f'FL design failed: {type(e).__name__}: {str(e)[:200]}', {'design_source': src, 'traceback': traceback.format_exc()[-1500:]})
-  for j in range(20 if quick else 120):
+  for j in range(10 if quick else 100):
+    src = fanout_design(f'FO{j}', rng)
+    try:
+      cls, _ = sc.load_source(ctx, src, f'FO{j}')
+      check_orders(ctx, f'FO{j}', src, cls, variants, coq_cases, coq_meta)
+      ctx.hist['family:net-fanout'] = ctx.hist.get('family:net-fanout', 0) + 1
+    except Exception as e:
+      ctx.violation(f'C02:fanout-design-crash:{type(e).__name__}', f'net fan-out design failed: {type(e).__name__}: {str(e)[:200]}', {'design_source': src, 'traceback': traceback.format_exc()[-1500:]})
+  for j in range(14 if quick else 120):
     src = index_design(f'IX{j}', rng)
     try:
       cls, _ = sc.load_source(ctx, src, f'IX{j}')
